@@ -60,6 +60,15 @@ ASSUMPTIONS = [
     "levels the statement orders, and an all-zero column under such a label is what the label says)",
     "numeric data are small integers / dyadic rationals; entries are compared with relative "
     "tolerance 1e-9 because center() divides by the number of rows",
+    "integer id columns bare inside grouping factors: 60 (thorough: 800) extra cases plus a small corpus "
+    "whose group-specific terms have a grouping factor holding the integer column `k` (ids 1, 2, 10) or "
+    "`kz` (ids -1, 0, 1) NOT wrapped in C() -- `|` makes its right side a factor -- inside an interaction "
+    "with str / Categorical columns in any position ((x | h:k), (1 | k:g), (0 + z | g:k:h), (f | kz:h), "
+    "(co | k:kz)) and now and then alone, next to a generated common part; all stages (training, "
+    "prediction on same / permuted / repeated / subset frames, unseen levels, in-place edits, missing "
+    "values) run on them and are judged by the same decoder: e|h[p]:k[10] is e where h == 'p' and k == "
+    "10, on the new frame too; a block of group.evaluate_new_data whose column count differs from the "
+    "number of labels of its term is a failure ('number of labels differs'), never skipped",
 ]
 TRUSTED = ["pandas dtype inference, Categorical codes and numpy fancy indexing as modelled in "
            "Model/Matrices.lean"]
@@ -189,6 +198,43 @@ def gen_user_formula(r):
     if r.random() < 0.5:
         return f"{head} ~ " + " + ".join(terms) + " + " + rhs
     return f"{head} ~ {rhs} + " + " + ".join(terms)
+
+
+# ------------------------------------------------------------------------------------------------
+# grouping factors holding an INTEGER id column bare (not through C()): `|` makes it a factor
+# ------------------------------------------------------------------------------------------------
+INTID_GROUPS = ["h:k", "k:g", "k:h", "f:k", "k:cu", "co:k", "g:k:h", "h:k:f", "k", "kz", "kz:h", "g:kz",
+                "k:kz", "cu:kz:h"]
+INTID_EFFECTS = ["1", "x", "z", "0 + x", "f", "x + f", "0 + f", "center(x)", "h", "f:x", "1 + z", "g",
+                 "0 + z", "co"]
+INTID_CORPUS = ["y ~ x + (x | h:k)", "y ~ (1 | k:g)", "y ~ f + (0 + z | g:k:h)", "y ~ (f | kz:h)"]
+
+
+def _names(expr):
+    return set(re.findall(r"[A-Za-z_][A-Za-z_0-9]*", expr))
+
+
+def gen_intid_formula(r):
+    """a generated common part (no group term; `k` occurs there through C() only) plus one or two
+    group-specific terms whose grouping factor holds the integer id column `k` (levels 1, 2, 10) or
+    `kz` (levels -1, 0, 1) bare: mostly inside an interaction with str / Categorical columns, in any
+    position, now and then alone"""
+    base = designs.gen_formula(r, response=r.choice(["y", "y", "yc"]), allow_group=False, max_terms=2)
+    head, rhs = base.split(" ~ ", 1)
+    keep = [rhs]
+    terms, seen = [], set()
+    for _ in range(r.randrange(1, 3)):
+        for _ in range(20):
+            eff, grp = r.choice(INTID_EFFECTS), r.choice(INTID_GROUPS)
+            if not (_names(eff) & _names(grp)) and grp not in seen:
+                break
+        else:
+            continue
+        seen.add(grp)
+        terms.append(f"({eff} | {grp})")
+    parts = keep + terms
+    r.shuffle(parts)
+    return f"{head} ~ " + " + ".join(parts)
 
 
 # ------------------------------------------------------------------------------------------------
@@ -531,12 +577,16 @@ def explore(tier, seed, res=None, replay=None):
                 "against the complete rows selected by the harness.  Extra cases use call atoms fn(v) of "
                 "caller-supplied functions returning strings / unordered Categoricals with unsorted or "
                 "never-observed declared categories / ordered Categoricals (result handed to the "
-                "decoder as a frame column)")
+                "decoder as a frame column).  Further extra cases have group-specific terms whose grouping "
+                "factor holds an integer id column (k, kz) bare, mostly inside an interaction with str / "
+                "Categorical columns (all stages)")
     n_cases = 600 if tier == "quick" else 9000
     n_user = 70 if tier == "quick" else 600
+    n_intid = 60 if tier == "quick" else 800
     cases = []
     if replay is not None:
-        cases = [(replay["formula"], replay.get("seed_path", 0), bool(replay.get("user_calls")))]
+        cases = [(replay["formula"], replay.get("seed_path", 0),
+                  "intid" if replay.get("int_id_grouping") else bool(replay.get("user_calls")))]
     else:
         for f in CORPUS:
             cases.append((f, len(cases), False))
@@ -546,6 +596,11 @@ def explore(tier, seed, res=None, replay=None):
             cases.append((f, len(cases), True))
         for _ in range(n_user):
             cases.append((None, len(cases), True))
+        # (placed after all the others so that those keep their streams)
+        for f in INTID_CORPUS:
+            cases.append((f, len(cases), "intid"))
+        for _ in range(n_intid):
+            cases.append((None, len(cases), "intid"))
     reqs_spec, reqs_model, reqs_pipe, owners = [], [], [], []
     reqs_new, owners_new = [], []
     reqs_na, owners_na = [], []
@@ -556,7 +611,8 @@ def explore(tier, seed, res=None, replay=None):
         if generated:
             # (a replay of a generated case draws the same numbers, so that the frames that follow
             # in the case's stream -- disturbing frame, new frames -- are the ones of the run)
-            g = gen_user_formula(r) if user else designs.gen_formula(r, extra=(r.random() < 0.3))
+            g = (gen_intid_formula(r) if user == "intid" else gen_user_formula(r) if user
+                 else designs.gen_formula(r, extra=(r.random() < 0.3)))
         formula = f or g
         res.evaluations += 1
         # a second design from the same formula text on another frame (other rows, other levels
@@ -564,7 +620,10 @@ def explore(tier, seed, res=None, replay=None):
         other = designs.gen_frame(r, complete=False)
         obs, req = designs.observe(formula, df, NAMES, disturb=other)
         case = {"formula": formula, "seed_path": path, "generated": generated}
-        if user:
+        if user == "intid":
+            case["int_id_grouping"] = True
+            res.count("cases with an integer id column bare inside a grouping factor")
+        elif user:
             case["user_calls"] = True
             res.count("user_call_cases")
         if req is None:
